@@ -445,7 +445,7 @@ func (w *bsWorld) exec(r *Run, line string) string {
 		}
 		if ws[2] != "-" {
 			_, err := w.ctl.Exec(`UPDATE verif_fault SET armed=1, target=$1, n=0`, bigOf(ws[2]).Uint64())
-			must(err)
+			mustUnlocked(r, w.lines, "bridge store", err)
 		}
 		err := w.p.ProcessBlock(ctx, blk)
 		if ws[2] != "-" {
@@ -479,6 +479,11 @@ func (w *bsWorld) exec(r *Run, line string) string {
 		if inflight != nil {
 			inflight.Close()
 		}
+		{
+			// whatever the reorg removed (possibly nothing), its transaction must be over
+			_, e := w.ctl.Exec(`UPDATE verif_fault SET armed=0`)
+			mustUnlocked(r, w.lines, "bridge store (after Reorg)", e)
+		}
 		var ks []string
 		var kn []uint64
 		for i, n := range w.survNums {
@@ -496,7 +501,7 @@ func (w *bsWorld) exec(r *Run, line string) string {
 			mode = 3
 		}
 		_, e1 := w.ctl.Exec(`UPDATE verif_fault SET armed=$1`, mode)
-		must(e1)
+		mustUnlocked(r, w.lines, "bridge store", e1)
 		err := w.p.Reorg(ctx, b)
 		_, e2 := w.ctl.Exec(`UPDATE verif_fault SET armed=0`)
 		must(e2)
